@@ -42,6 +42,32 @@ def vec_field_of(prog, v):
     return None
 
 
+def project(agg, path):
+    """the component of aggregate value `agg` designated by a projection path (variant downcasts, field indices / names), or
+    None if the path does not fit (another variant, an opaque element)"""
+    cur = strip(agg)
+    for e in path:
+        if e == '*':
+            continue
+        if cur is None or cur.kind != 'agg':
+            return None
+        if isinstance(e, str) and e.startswith('as:'):
+            var = (cur.extra.get('variant') or {}).get('name')
+            if var != e[3:]:
+                return None
+            continue
+        names = (cur.extra.get('variant') or {}).get('fields') or []
+        idx = None
+        if isinstance(e, int) or (isinstance(e, str) and e.isdigit()):
+            idx = int(e)
+        elif isinstance(e, str) and e in names:
+            idx = names.index(e)
+        if idx is None or idx >= len(cur.args):
+            return None
+        cur = strip(cur.args[idx])
+    return cur
+
+
 def origins(prog, fn, v, _seen=None, depth=0):
     if _seen is None:
         _seen = set()
@@ -82,6 +108,38 @@ def origins(prog, fn, v, _seen=None, depth=0):
                 flds = v.fields()
                 if na is not None and len(flds) == 1 and flds[0] in LINKS:
                     out.add(('link', na[2], flds[0]))
+                elif sa.kind == 'agg' and project(sa, v.args[1]) is not None:
+                    # a component of an aggregate that reaches the merge (`next = Some((n, p))`): that component
+                    out |= origins(prog, fn, project(sa, v.args[1]), _seen, depth)
+                elif sa.kind == 'call' and prog.resolve(sa) is not None and not prog.resolve(sa).is_closure and depth <= 4:
+                    # ... or of what a crate function returns (`next = self.step(n, p)` returning Option<(u32, u32)>)
+                    tg = prog.resolve(sa)
+                    got = False
+                    for rv in tg.body.ret_val.values():
+                        rvs, todo, seen_p = [], [strip(rv)], set()
+                        while todo:
+                            x_ = todo.pop()
+                            if x_ is not None and x_.kind == 'phi' and x_.id not in seen_p:
+                                seen_p.add(x_.id)
+                                todo.extend(strip(y_) for y_ in x_.args)
+                            elif x_ is not None and x_.kind != 'phi':
+                                rvs.append(x_)
+                        for r_ in rvs:
+                            if r_ is not None and r_.kind == 'agg':
+                                comp = project(r_, v.args[1])
+                                if comp is None:
+                                    continue        # another variant (None): nothing to read
+                                got = True
+                                for at in origins(prog, tg, comp, None, depth + 1):
+                                    if at[0] == 'param' and at[1] - 1 < len(sa.args):
+                                        out |= origins(prog, fn, sa.args[at[1] - 1], _seen, depth + 1)
+                                    else:
+                                        out.add(at)
+                            elif r_ is not None:
+                                got = True
+                                out.add(('other', show(v, 3)))
+                    if not got:
+                        out.add(('other', show(v, 3)))
                 elif sa.kind == 'phi':
                     _seen.add(sa.id)
                     continue
